@@ -254,6 +254,21 @@ def check(ctx: Ctx) -> None:
                  and isinstance(c.left, ast.Subscript) and isinstance(c.left.slice, ast.Constant) and c.left.slice.value == 0
                  and not any(isinstance(a, ast.UnaryOp) and isinstance(a.op, ast.Not) for a in ancestors(c) if a in list(ast.walk(g)))
                  for g in gens for c in ast.walk(g) if isinstance(c, ast.Compare))
+        if not ok:
+            # ... or by position in the list of the parts' prefixes: `parts[prefixes.index(PITCH)]` with `prefixes = [q[0] for q in parts]`
+            prefix_lists = {}
+            for s in ast.walk(loop):
+                if isinstance(s, ast.Assign) and len(s.targets) == 1 and isinstance(s.targets[0], ast.Name) and isinstance(s.value, ast.ListComp) \
+                        and len(s.value.generators) == 1 and not s.value.generators[0].ifs and isinstance(s.value.generators[0].target, ast.Name) \
+                        and src(s.value.elt) == f"{s.value.generators[0].target.id}[0]":
+                    prefix_lists[s.targets[0].id] = src(s.value.generators[0].iter)
+            for x in ast.walk(loop):
+                if isinstance(x, ast.Subscript) and isinstance(x.slice, ast.Call) and call_method(x.slice)[1] == "index" and len(x.slice.args) == 1 \
+                        and enum_member(x.slice.args[0], "TokenisationPrefixes") == "PITCH" and isinstance(call_method(x.slice)[0], ast.Name) \
+                        and prefix_lists.get(call_method(x.slice)[0].id) == src(x.value):
+                    st_ = next((a for a in ancestors(x) if isinstance(a, ast.stmt)), None)
+                    if st_ is not None and (any(st_ is y or any(st_ is z for z in ast.walk(y)) for y in pb)):
+                        ok = True
         ctx.check(ok, "PITCH", "get_info: the PITCH part of a fused token is looked up by its prefix", function=fg.qualname,
                   construct="get_info does not select the PITCH part by prefix", message="", file=fg.file, node=fg.node)
     pd = next((b for m, t, b in chain_d if m == "PITCH"), None)
